@@ -73,3 +73,29 @@ CHECKS = {
         'outside_claim': 'RWA supervisory operations (excluded by the property)',
     },
 }
+
+
+# ---------------------------------------------------------------- fragments
+# Every checks/reg_*.py may define PROFILES (dict), CHECKS (dict: property -> entry) and
+# NOT_APPLICABLE (dict). Entries for the same property are merged (kani/smt lists concatenated).
+def _merge():
+    import glob, importlib.util, os
+    here = os.path.dirname(os.path.abspath(__file__))
+    for f in sorted(glob.glob(os.path.join(here, 'reg_*.py'))):
+        spec = importlib.util.spec_from_file_location(os.path.basename(f)[:-3], f)
+        m = importlib.util.module_from_spec(spec)
+        spec.loader.exec_module(m)
+        PROFILES.update(getattr(m, 'PROFILES', {}))
+        NOT_APPLICABLE.update(getattr(m, 'NOT_APPLICABLE', {}))
+        for pid, e in getattr(m, 'CHECKS', {}).items():
+            cur = CHECKS.setdefault(pid, {})
+            for k, v in e.items():
+                if k in ('kani', 'smt', 'trusted_base', 'stubs_and_assumes', 'assumptions'):
+                    cur[k] = cur.get(k, []) + list(v)
+                elif k in ('bounds', 'outside_claim') and cur.get(k):
+                    cur[k] = cur[k] + ' | ' + v
+                else:
+                    cur[k] = v
+
+
+_merge()
